@@ -238,4 +238,183 @@ theorem cpl_fragment (n : Nat) (ts o : List Tok) (hok : TsOK ts) (hd : D (.nt .f
   rintro y a9 ⟨rfl, rfl⟩
   exact ⟨by simp [printFragment, hvs, hds, hss], hpos, hσ⟩
 
+/-! ### the document -/
+
+/-- the keys are the start offsets of tokens of the stream, in stream order -/
+def HeadsOf (σ : Stream) (keys : List Nat) : Prop := ∃ hs : List Token, hs.Sublist σ.toks ∧ keys = hs.map (·.start)
+
+theorem HeadsOf.nil (σ : Stream) : HeadsOf σ [] := ⟨[], List.nil_sublist _, rfl⟩
+
+theorem HeadsOf.cons {σ σm : Stream} {us : List Token} {u : Token} {rest : List Token} {keys : List Nat}
+    (hσ : σ = Stream.app us σm) (hus : us = u :: rest) (h : HeadsOf σm keys) : HeadsOf σ (u.start :: keys) := by
+  obtain ⟨hs, h1, h2⟩ := h
+  refine ⟨u :: hs, ?_, by simp [h2]⟩
+  rw [hσ, Stream.toks_app, hus]
+  exact (h1.trans (List.sublist_append_right _ _)).cons_cons u
+
+theorem first_definition {ts o : List Tok} (h : D (.nt .executableDefinition) ts o) (hok : TsOK ts) :
+    ∃ t rest, ts = t :: rest ∧ (t.kind = .braceL ∨ (t.kind = .name ∧
+      (t.value = kwQuery ∨ t.value = kwMutation ∨ t.value = kwSubscription)) ∨ (t.kind = .name ∧ t.value = kwFragment)) := by
+  rcases h.nt_inv.alt_inv with h | h
+  · rcases inv_operation h hok with ⟨o', _, dss⟩ | ⟨op, nm, tv, ov, td, od, tss, oss, hop, e, _⟩
+    · obtain ⟨parts, _, e, _, _⟩ := inv_selectionSet dss hok
+      exact ⟨_, _, e, .inl rfl⟩
+    · exact ⟨_, _, e, .inr (.inl ⟨rfl, hop⟩)⟩
+  · obtain ⟨nm, tc, tv, ov, td, od, tss, oss, _, e, _⟩ := inv_fragment h hok
+    exact ⟨_, _, e, .inr (.inr ⟨rfl, rfl⟩)⟩
+
+theorem cpl_queryDocLoop (m : Nat) : ∀ (parts : List (List Tok × List Tok)),
+    (∀ p ∈ parts, TsOK p.1 ∧ D (.nt .executableDefinition) p.1 p.2) →
+    ∀ (n : Nat) (doc : QueryDoc) (a : AS) (σ' : Stream), Starts a.σ (parts.flatMap (·.1)) σ' → σ'.head.kind = .eof →
+      Fwd (queryDocLoop m n doc) a (fun d a' => (∃ defs : List Def, d.ops = doc.ops ++ opsOf defs ∧
+        d.frags = doc.frags ++ fragsOf defs ∧ defs.flatMap (fun x => (defItem x).2) = parts.flatMap (·.2) ∧
+        HeadsOf a.σ (defs.map fun x => (defItem x).1) ∧ (parts ≠ [] → defs ≠ [])) ∧ a'.σ = σ')
+  | [], _ => by
+    intro n doc a σ' hs heof
+    rw [List.flatMap_nil, Starts.nil_iff] at hs
+    cases n with
+    | zero => exact Fwd.outOfFuel _ _ _
+    | succ n =>
+      unfold queryDocLoop
+      refine Fwd.bind (fwd_peek a) ?_
+      rintro t a1 ⟨rfl, rfl⟩
+      refine Fwd.ite_neg (by rw [hs]; simp [heof]) ((Fwd.pure _ _).mono ?_)
+      rintro d a' ⟨rfl, rfl⟩
+      exact ⟨⟨[], by simp [opsOf], by simp [fragsOf], rfl, HeadsOf.nil _, fun h => absurd rfl h⟩, hs⟩
+  | p :: parts, hp => by
+    intro n doc a σ' hs heof
+    obtain ⟨hokp, hdp⟩ := hp p (by simp)
+    rw [List.flatMap_cons, Starts.append_iff] at hs
+    obtain ⟨σm, hb, hrest⟩ := hs
+    obtain ⟨t, rest, ep, hfirst⟩ := first_definition hdp hokp
+    obtain ⟨us, hσus, htk⟩ := hb
+    have husne : ∃ u r, us = u :: r := by
+      cases us with
+      | nil => rw [ep] at htk; simp at htk
+      | cons u r => exact ⟨u, r, rfl⟩
+    obtain ⟨u0, r0, hus⟩ := husne
+    have hb : Starts a.σ p.1 σm := ⟨us, hσus, htk⟩
+    have hhead : a.σ.head = u0 := by rw [hσus, hus]; rfl
+    have hu0 : Tok.ofToken u0 = t := by
+      have := htk; rw [hus, ep] at this; simpa using (List.cons.inj this).1
+    cases n with
+    | zero => exact Fwd.outOfFuel _ _ _
+    | succ n =>
+      have ih := cpl_queryDocLoop m parts (fun q hq => hp q (by simp [hq])) n
+      have hk : a.σ.head.kind = t.kind := by rw [hhead]; exact ofToken_kind hu0
+      have hv : a.σ.head.value = t.value := by rw [hhead]; exact ofToken_value hu0
+      have hcont : ∀ (x : Def) (doc' : QueryDoc) (a3 : AS), (defItem x).2 = p.2 → (defItem x).1 = u0.start →
+          doc'.ops = doc.ops ++ opsOf [x] → doc'.frags = doc.frags ++ fragsOf [x] → a3.σ = σm →
+          Fwd (queryDocLoop m n doc') a3 (fun d a' => (∃ defs : List Def, d.ops = doc.ops ++ opsOf defs ∧
+            d.frags = doc.frags ++ fragsOf defs ∧ defs.flatMap (fun x => (defItem x).2) = (p :: parts).flatMap (·.2) ∧
+            HeadsOf a.σ (defs.map fun x => (defItem x).1) ∧ (p :: parts ≠ [] → defs ≠ [])) ∧ a'.σ = σ') := by
+        intro x doc' a3 hx hkey hops hfrags hσ3
+        refine (ih doc' a3 σ' (by rw [hσ3]; exact hrest) heof).mono ?_
+        rintro d a' ⟨⟨defs, e1, e2, e3, e4, _⟩, e5⟩
+        refine ⟨⟨x :: defs, ?_, ?_, by simp [hx, e3], ?_, by simp⟩, e5⟩
+        · rw [e1, hops]; cases x <;> simp [opsOf]
+        · rw [e2, hfrags]; cases x <;> simp [fragsOf]
+        · rw [List.map_cons, hkey]
+          rw [hσ3] at e4
+          exact HeadsOf.cons hσus hus e4
+      unfold queryDocLoop
+      refine Fwd.bind (fwd_peek a) ?_
+      rintro t0 a1 ⟨rfl, rfl⟩
+      refine Fwd.ite_pos (by rw [hk]; rcases hfirst with h | ⟨h, _⟩ | ⟨h, _⟩ <;> simp [h]) (Fwd.bind (fwd_hasErr _) ?_)
+      rintro e a2 ⟨rfl, rfl⟩
+      refine Fwd.ite_neg (by simp) (Fwd.bind (fwd_peekPos _) ?_)
+      rintro _ a3 rfl
+      refine Fwd.bind (fwd_peek _) ?_
+      rintro t1 a4 ⟨rfl, rfl⟩
+      rcases hdp.nt_inv.alt_inv with hop | hfr
+      · -- an operation
+        have hrun := cpl_operation m p.1 p.2 hokp hop { pk := true, σ := a.σ, cnt := a.cnt } σm (by simpa using hb)
+        have hfin : Fwd (parseOperationDefinition m >>= fun od => queryDocLoop m n { doc with ops := doc.ops ++ [od] })
+            { pk := true, σ := a.σ, cnt := a.cnt } (fun d a' => (∃ defs : List Def, d.ops = doc.ops ++ opsOf defs ∧
+            d.frags = doc.frags ++ fragsOf defs ∧ defs.flatMap (fun x => (defItem x).2) = (p :: parts).flatMap (·.2) ∧
+            HeadsOf a.σ (defs.map fun x => (defItem x).1) ∧ (p :: parts ≠ [] → defs ≠ [])) ∧ a'.σ = σ') := by
+          refine Fwd.bind hrun ?_
+          rintro od a5 ⟨hod, hpos, hσ5⟩
+          exact hcont (.inl od) _ a5 hod (by simp only [defItem]; rw [hpos]; simp [hhead]) (by simp [opsOf]) (by simp [fragsOf]) hσ5
+        rcases hfirst with hkb | ⟨hkn, hvq⟩ | ⟨hkn, hvf⟩
+        · simp only [hk, hkb]
+          exact hfin
+        · simp only [hk, hkn]
+          refine Fwd.bind (fwd_peek _) ?_
+          rintro t2 a5 ⟨rfl, rfl⟩
+          exact Fwd.ite_pos (by simp only [hv]; exact hvq) hfin
+        · -- the first token says `fragment`, but an operation starts with `{` or an operation type
+          exfalso
+          rcases inv_operation hop hokp with ⟨o', _, dss⟩ | ⟨op, nm, tv, ov, td, od, tss, oss, hopv, e, _⟩
+          · obtain ⟨ps, _, e, _, _⟩ := inv_selectionSet dss hokp
+            rw [ep] at e
+            have := (List.cons.inj e).1
+            rw [this] at hkn; simp [tP] at hkn
+          · rw [ep] at e
+            have := (List.cons.inj e).1
+            rw [this] at hvf
+            simp only [tName] at hvf
+            rcases hopv with h | h | h <;> rw [h] at hvf <;> exact absurd hvf (by decide)
+      · -- a fragment definition
+        obtain ⟨nm, tc, tv, ov, td, od, tss, oss, _, e, _⟩ := inv_fragment hfr hokp
+        rw [ep] at e
+        have htt : t = tKw "fragment" := (List.cons.inj e).1
+        have hkn : a.σ.head.kind = .name := by rw [hk, htt]; rfl
+        have hvf : a.σ.head.value = kwFragment := by rw [hv, htt]; rfl
+        simp only [hkn]
+        refine Fwd.bind (fwd_peek _) ?_
+        rintro t2 a5 ⟨rfl, rfl⟩
+        refine Fwd.ite_neg (by simp only [hvf]; decide) (Fwd.ite_pos hvf ?_)
+        refine Fwd.bind (cpl_fragment m p.1 p.2 hokp hfr _ σm (by simpa using hb)) ?_
+        rintro fd a6 ⟨hfd, hpos, hσ6⟩
+        exact hcont (.inr fd) _ a6 hfd (by simp only [defItem]; rw [hpos]; simp [hhead]) (by simp [opsOf]) (by simp [fragsOf]) hσ6
+
+/-! ### the entry point -/
+
+theorem tsOK_of_tokensOf {inp : Bytes} {ts : List Tok} (h : tokensOf inp = some ts) : TsOK ts := by
+  obtain ⟨t, _, us, hσ, htk⟩ := starts_of_tokensOf h
+  have hne : (rawS inp Cur.init).sig.NoEof := (rawS_noEof inp Cur.init).sig
+  rw [hσ] at hne
+  have hok := hne.app_toks
+  intro x hx
+  rw [← htk] at hx
+  simp only [tk, List.mem_map] at hx
+  obtain ⟨u, hu, rfl⟩ := hx
+  exact ⟨(hok u hu).2.1, (hok u hu).2.2⟩
+
+/-- **completeness and uniqueness of the canonical form**: if the token sequence of `inp` is
+    derivable from `ExecutableDocument` with canonical output `o`, the parser accepts `inp` with a
+    non-empty document whose unparse is `o` -/
+theorem parseQuery_complete (inp : Bytes) (ts o : List Tok) (htok : tokensOf inp = some ts)
+    (hd : D (.nt .executableDocument) ts o) :
+    ∃ d, parseQuery 0 inp = .ok d ∧ printQuery d = o ∧ (d.ops ≠ [] ∨ d.frags ≠ []) := by
+  have hok := tsOK_of_tokensOf htok
+  obtain ⟨parts, hne, rfl, rfl, hp⟩ := hd.nt_inv.plus_parts
+  obtain ⟨t, hteof, hst⟩ := starts_of_tokensOf htok
+  have hrun := cpl_queryDocLoop (fuelFor inp) parts (fun p hpm => ⟨hok.of_flatMap p hpm, hp p hpm⟩) (fuelFor inp)
+    { ops := [], frags := [] } (abs (PState.init 0 inp)) (.eof t) (by rw [abs_init]; exact hst) hteof
+    (PState.init 0 inp) (WF.init 0 inp) (by simp [dead, PState.init]) rfl (runQuery_oof 0 inp)
+  obtain ⟨hl, _, ⟨defs, e1, e2, e3, ⟨hs, hsub, hkeys⟩, hdne⟩, _⟩ := hrun
+  have hok' : parseQuery 0 inp = .ok (runQuery 0 inp).1 := ofRun_ok.2 ⟨live_oof hl, live_err hl, rfl⟩
+  have hops : (runQuery 0 inp).1.ops = opsOf defs := by simpa [runQuery, parseQueryDocument] using e1
+  have hfrags : (runQuery 0 inp).1.frags = fragsOf defs := by simpa [runQuery, parseQueryDocument] using e2
+  -- the keys increase along `defs`
+  have hsorted : (defs.map fun x => (defItem x).1).Pairwise (· < ·) := by
+    rw [hkeys, List.pairwise_map]
+    rw [abs_init] at hsub
+    simp only at hsub
+    have h1 : (rawS inp Cur.init).sig.toks.Pairwise (fun a b => a.start < b.start) := by
+      rw [Stream.sig_toks]; exact (rawS_sorted inp Cur.init).2.sublist List.filter_sublist
+    exact h1.sublist hsub
+  refine ⟨_, hok', ?_, ?_⟩
+  · unfold printQuery
+    rw [hops, hfrags, inSourceOrder_sorted (items_perm defs) (by simpa [List.pairwise_map] using hsorted)]
+    rw [← e3]
+    simp [List.flatMap_def, List.map_map, Function.comp_def]
+  · have hdefs := hdne hne
+    rw [hops, hfrags]
+    cases defs with
+    | nil => exact absurd rfl hdefs
+    | cons x r => cases x <;> simp [opsOf, fragsOf]
+
 end Gql.Parser
